@@ -187,11 +187,15 @@ Aggregate == /\ IsSel(q) /\ ~Aggregated(q) /\ ~q.distinct /\ steps < MaxSteps
                 IN
                 \E gs \in Pick({ << >> } \cup G1 \cup { g \in G2 : g[1] # g[2] }) :
                 \E a1 \in Pick(AggExprs(h)) : \E as2 \in Pick({ << >> } \cup { <<a>> : a \in A2 }) :
-                \E showkeys \in Pick({"all", "first", "none"}) :
+                \E showkeys \in Pick({"all", "first", "none", "shadow"}) :
                    LET ng == Len(gs)
                        as == <<a1>> \o as2
+                       \* "shadow": the key is an unqualified integer column and the item shown is a non-injective expression
+                       \* of it under the column's own name (SELECT (a * 0) AS a .. GROUP BY a): GROUP BY still means the column
+                       shadowable == ng > 0 /\ gs[1].k = "col" /\ gs[1].q = "" /\ \E i \in IntCols(h) : h[i].n = gs[1].n
                        keyitems == IF showkeys = "all" THEN [i \in 1..ng |-> Item(gs[i], "g" \o ToString(i))]
-                                   ELSE IF showkeys = "first" /\ ng > 0 THEN << Item(gs[1], "g1") >> ELSE << >>
+                                   ELSE IF showkeys = "first" /\ ng > 0 THEN << Item(gs[1], "g1") >>
+                                   ELSE IF showkeys = "shadow" /\ shadowable THEN << Item(Bin("*", gs[1], Lit(0)), gs[1].n) >> ELSE << >>
                        aggitems == [i \in 1..Len(as) |-> Item(as[i], Names[i])]
                    IN Step([q EXCEPT !.group = gs, !.items = keyitems \o aggitems], "Aggregate")
 
